@@ -114,11 +114,10 @@ def joinToks (sep : List Tok) : List (List Tok) → List Tok
   | x :: xs => x ++ sep ++ joinToks sep xs
 
 def cmpOpToks (op : CmpOpK) : List Tok :=
-  ((cmpOpText op).splitOn " ").filter (· ≠ "") |>.map fun w =>
-    if w.front.isAlpha then Tok.kw w else Tok.op w
+  (cmpOpWords op).map fun w => if w.front.isAlpha then Tok.kw w else Tok.op w
 
 def unaryOpTok (op : UnaryOpK) : Tok :=
-  let w := (unaryOpText op).trimAscii.toString
+  let w := unaryOpWord op
   if w.front.isAlpha then .kw w else .op w
 
 def boolOpTok (op : BoolOpK) : Tok := .kw (boolOpText op)
